@@ -154,16 +154,23 @@ func TestProp(t *testing.T) {
 		// Each case is its own subtest: when the race detector flags something during a case only
 		// that subtest is failed by the testing package and the remaining cases still run (race
 		// reports are collected from the GORACE log by the driver).
+		completed := false
 		ok := t.Run(fmt.Sprintf("case%d", i), func(t *testing.T) {
 			if def.Bubble {
-				runBubble(t, rec, func(t *testing.T) { def.Run(t, rng, rec, tier, i) })
+				runBubble(t, rec, func(t *testing.T) { def.Run(t, rng, rec, tier, i); completed = true })
 			} else {
 				def.Run(t, rng, rec, tier, i)
+				completed = true
 				finish()
 			}
 		})
 		if !ok {
 			rec.Ev("subtest-failed-by-testing-package")
+			if !completed && len(rec.Violations()) == 0 {
+				// the case did not run to its end (t.Fatal in the harness' own set-up, not a race report
+				// during a case that completed): nothing was decided
+				rec.Inconclusive("the case was aborted by the testing package before it finished (harness set-up failure)")
+			}
 		}
 		wantSample := i < 3 || os.Getenv("VERIF_CASE") != ""
 		emit(out, "RESULT "+rec.Result(i, seed, wantSample).JSON())
